@@ -9,28 +9,36 @@ case: ( script pieces target items )
            fill: one char, '' = absent (space)"""
 import itertools
 
-PALETTE = ["a", "\u00e9", "\u20ac", "\U0001d11e", "\u0301"]   # 1,2,3,4 bytes + combining acute (2 bytes)
+# exhaustive palette: 1,2,3,4 bytes + combining acute (2 bytes); the multi-byte ones are chosen with
+# extreme continuation bytes (C3 BF / E0 A0 80 / F4 8F BF BF) so that a wrong lead-byte test
+# (e.g. 0xBF or 0x80 taken for a character start) changes the count
+PALETTE = ["a", "\u00ff", "\u0800", "\U0010ffff", "\u0301"]
+# further characters for the sampled / random families (the design's e-acute, euro, U+1D11E; range ends)
+EXTRA = ["\u00e9", "\u20ac", "\U0001d11e", "b", "Z", "\u0080", "\u07ff", "\uffff", "\U00010000",
+         "\u200d", "\ufe0f"]
 WIDTHS = [0, 1, 2, 3, 4, 6]                                   # encoded: absent, 0, 1, 2, 3, 5
 FILLS = [" ", "~", "\u00e9", "\U0001d11e", "}", "{", "(", ")", ":", "0", "<", ">", ".", "\u0301", "\u20ac", "\\"]
-SCRIPTS = [[], [1], [2]]
+SCRIPTS = [[], [1], [2], [3]]
 NOP = [0, 0, 0, ""]
 
 RULE = ("single spec {m:SPEC}: every (min,max) in {absent,0,1,2,3,5}^2 (incl. min>max) x both alignments x "
-        "every text of <= 3 (quick) / <= 4 (thorough) characters over {a, e-acute, euro, U+1D11E, combining "
-        "acute} x every splitting of the text into non-empty write_str pieces, with the fill cycling over 16 "
-        "characters (multi-byte, combining, and the syntax characters } { ( ) : 0 < > . \\) and the sink "
-        "script cycling over {accept all, 1 byte per call, 2 bytes per call} (thorough: all three); the same "
-        "for a random sample of 4-5 character texts; default-fill / default-alignment spellings ({m:5}, "
-        "{m:>5}, {m:.3}); then the nested family {({m:A}{l}):B} and random pattern trees (depth <= 3, groups "
-        "of <= 3 items over {m}, {t}, {l}, literals, min<=max<=7) with random pieces (some empty), random "
-        "target and random sink scripts (entries 0..5, length <= 4). non-trivial = some spec has a width and "
-        "the text it applies to is non-empty or min > 0; distinct = distinct case line")
+        "every text of <= 3 (quick) / <= 4 (thorough) characters over {a, U+00FF (C3 BF), U+0800 (E0 A0 80), "
+        "U+10FFFF (F4 8F BF BF), combining acute U+0301} x every splitting of the text into non-empty "
+        "write_str pieces, with the fill drawn from 16 characters (multi-byte, combining, and the syntax "
+        "characters } { ( ) : 0 < > . \\) and the sink script drawn from {accept all, 1, 2, 3 bytes per "
+        "call} (thorough: all four for texts <= 3 chars, two for 4 chars); the same for a random sample of "
+        "4-6 character texts over a wider palette (e-acute, euro, U+1D11E, U+0080, U+07FF, U+FFFF, U+10000, "
+        "ZWJ, VS16); default-fill / default-alignment spellings ({m:5}, {m:>5}, {m:.3}); then the nested "
+        "family {({m:A}{l}):B} and random pattern trees (depth <= 3, groups of <= 3 items over {m}, {t}, "
+        "{l}, literals, min<=max<=7) with random pieces (some empty), random target and random sink scripts "
+        "(entries 0..5, length <= 4). non-trivial = some spec has a width and the text it applies to is "
+        "non-empty or min > 0; distinct = distinct case line")
 ASSUMPTIONS = [
     "the sink's write accepts between 1 and len bytes per call and never fails (Ok(0)/Err end the encode call with an error and are outside the property)",
     "text reaches the writers as whole &str pieces (safe Rust: fmt::Write::write_str / write_all of str bytes); sub-character splits arise only from short writes of the sink, which are covered",
     "set_style calls carry no text and are not exercised (no {h(..)} in the generated patterns)",
     "explicit widths <= 7 in the correspondence run (theorems are for all widths)",
-    "cases with min > max (outside the property's quantifier) are only checked for valid UTF-8 and at most max characters, not for equality with the model",
+    "cases with min > max (outside the property's quantifier) are compared with the model (which pads, then truncates, like the code) and checked for valid UTF-8 and at most max characters, but not against the law fit",
 ]
 TRUSTED = ["the sink oracle of Model/Width.v (1 <= accepted <= offered, infallible) and std's write_all / fmt adapter behaviour modelled from their documentation"]
 EXHAUSTIVE = {"quick": False, "thorough": False}
@@ -62,7 +70,7 @@ def single(script, pieces, params):
 
 
 def rand_text(rng, lo, hi):
-    return [rng.choice(PALETTE + ["a", "b", "Z"]) for _ in range(rng.range(lo, hi))]
+    return [rng.choice(PALETTE + EXTRA + ["a"]) for _ in range(rng.range(lo, hi))]
 
 
 def rand_pieces(rng, chars):
@@ -80,8 +88,8 @@ def rand_pieces(rng, chars):
 
 
 def rand_script(rng):
-    r = rng.below(6)
-    if r < 3:
+    r = rng.below(8)
+    if r < 4:
         return SCRIPTS[r]
     return [rng.below(6) for _ in range(rng.range(1, 4))]
 
@@ -129,25 +137,28 @@ def cases(rng, tier):
     tp = [(t, p) for t in texts for p in splittings(t)]
     # sampled longer texts
     for _ in range(400 if thorough else 60):
-        t = [rng.choice(PALETTE) for _ in range(rng.range(4, 5))]
+        t = [rng.choice(PALETTE + EXTRA) for _ in range(rng.range(4, 6))]
         tp.append((t, rand_pieces(rng, t)))
     for (t, pieces) in tp:
         for mn in WIDTHS:
             for mx in WIDTHS:
                 for al in (1, 2):
-                    fill = FILLS[idx % len(FILLS)]
-                    if thorough:
-                        for sc in SCRIPTS:
-                            out.append(single(sc, pieces, [mn, mx, al, fill]))
+                    fill = rng.choice(FILLS)
+                    if thorough and len(t) <= 3:
+                        scs = SCRIPTS
+                    elif thorough:
+                        scs = [rng.choice(SCRIPTS), rng.choice(SCRIPTS)]
                     else:
-                        out.append(single(SCRIPTS[(idx // 5) % 3], pieces, [mn, mx, al, fill]))
+                        scs = [rng.choice(SCRIPTS)]
+                    for sc in scs:
+                        out.append(single(sc, pieces, [mn, mx, al, fill]))
                     idx += 1
     # default spellings
     for (t, pieces) in tp[:: 7]:
         for mn in WIDTHS:
             for mx in WIDTHS:
                 for al in (0, 1, 2):
-                    out.append(single(SCRIPTS[idx % 3], pieces, [mn, mx, al, ""]))
+                    out.append(single(rng.choice(SCRIPTS), pieces, [mn, mx, al, ""]))
                     idx += 1
     # nested family {({m:A}{l}):B}
     for _ in range(20000 if thorough else 3000):
@@ -198,7 +209,7 @@ def nontrivial(c):
 def classify(c):
     items = c[3]
     kind = "single" if len(items) == 1 and items[0][0] == 0 else "tree"
-    sc = {(): "all", (1,): "1byte", (2,): "2byte"}.get(tuple(c[0]), "mixed")
+    sc = {(): "all", (1,): "1byte", (2,): "2byte", (3,): "3byte"}.get(tuple(c[0]), "mixed")
     ps = [p for p, _ in _walk(items)]
     w = "none"
     if any(p[0] and p[1] for p in ps):
@@ -271,20 +282,18 @@ def _meaning(items, msg, tgt):
 
 
 def compare(c, impl, model):
-    if _min_gt_max(c):
-        # outside the property's quantifier (min <= max): only the unconditional parts
-        if not isinstance(impl, (bytes, bytearray)):
-            return "encode failed or panicked: %r" % (impl,)
+    # the model follows the code for every width pair (also min > max: pad, then truncate), so the
+    # bytes are compared in all cases; the law itself (min <= max only) is checked in extra_checks
+    if impl != model:
+        return "impl != model (bytes reaching the sink)"
+    if _min_gt_max(c) and isinstance(impl, (bytes, bytearray)):
+        items = c[3]
         try:
             txt = bytes(impl).decode("utf-8")
         except UnicodeDecodeError:
             return "output is not valid UTF-8"
-        items = c[3]
-        if len(items) == 1 and items[0][0] == 0 and items[0][1][1] and len(txt) > items[0][1][1] - 1:
+        if len(items) == 1 and items[0][0] in (0, 2, 3, 4) and items[0][1][1] and len(txt) > items[0][1][1] - 1:
             return "more than max characters emitted"
-        return None
-    if impl != model:
-        return "impl != model (bytes reaching the sink)"
     return None
 
 
